@@ -336,14 +336,19 @@ def run_eval(inputs, mask=None, stall_s=60, variant="plain"):
 
 
 def run_driver(t, case_lines):
+    """Verdict lines for case lines. A driver crash (stack overflow, …) is isolated by bisection and the
+    culprit gets a BADLINE verdict (a machinery error is never a silent pass)."""
     if not case_lines:
         return []
     data = f"@t {t}\n" + "\n".join(case_lines) + "\n"
     p = subprocess.run([GDRIVER], input=data, capture_output=True, text=True, timeout=3600)
     vs = p.stdout.splitlines()
-    if len(vs) != len(case_lines):
-        raise RuntimeError(f"gdriver answered {len(vs)} lines for {len(case_lines)} cases (rc={p.returncode}): {p.stderr[-300:]}")
-    return vs
+    if len(vs) == len(case_lines):
+        return vs
+    if len(case_lines) == 1:
+        return [f"BADLINE 0 - gdriver-crashed rc={p.returncode}"]
+    mid = len(case_lines) // 2
+    return run_driver(t, case_lines[:mid]) + run_driver(t, case_lines[mid:])
 
 
 def parse_verdict(v):
@@ -383,7 +388,8 @@ def evaluate(inputs, mask=None, variant="plain"):
 
         def comm(s, part, p):
             o, _ = p.communicate(f"@t {t}\n" + "\n".join(part) + "\n")
-            outs_d[s] = o.splitlines()
+            vs_ = o.splitlines()
+            outs_d[s] = vs_ if len(vs_) == len(part) else run_driver(t, part)
 
         ths = [threading.Thread(target=comm, args=a) for a in procs]
         [x.start() for x in ths]
